@@ -1,17 +1,16 @@
 SPECIFICATION Spec
 CONSTANTS
-  Mode = "enum"
-  MaxLen = 2
-  MaxPool = 1
+  Mode = "gen"
+  MaxLen = 4
+  MaxPool = 3
   MaxSize = 64
   Raise = FALSE
   Devs = {"EnumFirstZeroUnsigned", "UnnamedNoAlign", "UnionUnnamedIgnored", "PackedNoFinalAlign"}
-  Widths = {}
+  Widths = {0, 1, 2, 3, 5, 7, 8, 9, 13, 15, 16, 17, 24, 31, 32, 33, 48, 63, 64}
   Emit = TRUE
-  CharSigned = FALSE
-  EUSuffixed = {0, 1, 63, 64, 127, 128, 2047, 2048, 4095}
+  CharSigned = TRUE
+  EUSuffixed = {}
   GenClasses = {"scalar", "array", "bitfield", "nested", "anon", "alignas", "flex"}
   GenPacked = TRUE
   CheckSim = FALSE
-INVARIANTS Inv_EnumRefine Inv_EmitEnum
 CHECK_DEADLOCK FALSE
